@@ -184,7 +184,7 @@ Definition refill (s0 : lru) (l : list entry) : lru :=
 Definition clone (s : lru) : lru :=
   refill (mkLru (cap s) [] (hascb s)) (rev (items s)).
 
-(** [FromIterator]: capacity [max 1 hint] where [hint] is the iterator's lower size bound,
-    then [put] every pair in iteration order *)
-Definition from_iter (hint : nat) (l : list entry) : lru :=
-  refill (lru_new (Nat.max 1 hint) false) l.
+(** [FromIterator]: the items are collected, the capacity is [max 1 (number of items)],
+    then every pair is [put] in iteration order *)
+Definition from_iter (l : list entry) : lru :=
+  refill (lru_new (Nat.max 1 (length l)) false) l.
